@@ -164,7 +164,7 @@ func c40setups(thorough bool) []c40setup {
 		{"read1of3", 1, []string{"H0", "D3@0", "R1@0"}},
 		{"empty", 1, []string{"H0"}},
 		{"declared2of2", 1, []string{"HC0", "D2@0"}}, // content-length 2: any further DATA is a stream error
-		{"get", 1, []string{"HG0"}},                   // GET with FLAG_FIN: half-closed(remote), the response's last frame closes the stream
+		{"get", 1, []string{"HG0"}},                  // GET with FLAG_FIN: half-closed(remote), the response's last frame closes the stream
 	}
 	if thorough {
 		ss = append(ss, c40setup{"two-buffered", 2, []string{"H0", "D3@0", "H1", "D3@1"}})
